@@ -781,7 +781,95 @@ def c06_19(ctx):
     return shared_obligations(ctx, ["tx", "script", "op", "witness", "taproot", "pecc"], "the result would depend on something other than the arguments and the object's current state")
 
 
+def c06_20(ctx):
+    """A witness program is the *whole* scriptPubKey (or the whole p2sh RedeemScript), never something the spender pushes: Script.evaluate
+    is evaluated on combined scripts whose ScriptSig itself pushes `0 <20 bytes>`, `0 <32 bytes>` or `1 <32 bytes>` in front of the
+    RedeemScript of a p2sh multisig output, with a witness that satisfies the *pushed* program (the spender's own key / an always-true
+    script).  None of these spends carries a signature by a key of the RedeemScript: the verdict must not be true.  Two honest spends
+    (native p2wpkh, p2sh-p2wpkh) are evaluated alongside and must be true.  Hashes and signature checks are stand-ins."""
+    import hashlib
+    from sa.cells import Evaluator, Obj, Raised, Undecided
+    spec = "script:Script.evaluate"
+    mod, fn = rl.get(ctx, spec)
+    H = lambda x: hashlib.sha1(x).digest()            # 20-byte stand-in for hash160
+    S = lambda x: hashlib.sha256(x).digest()          # 32-byte stand-in for sha256
+    PUB_OK, SIG_OK, PUB_ATT, SIG_ATT = b"\x02" + b"\x11" * 32, b"\x30" + b"\x01" * 70, b"\x03" + b"\x22" * 32, b"\x30" + b"\x02" * 70
+    X_ATT, SCHNORR_ATT = b"\x33" * 32, b"\x44" * 64
+    valid = {(SIG_OK, PUB_OK), (SIG_ATT, PUB_ATT), (SCHNORR_ATT, X_ATT)}
+    scripts = {}                                       # raw bytes -> commands, for the Script.parse stand-in
+
+    def raw(name, commands):
+        b = b"<script:" + name + b">"
+        scripts[b] = commands
+        return b
+    R_MULTI = raw(b"2of3", [0x52, PUB_OK, b"\x02" + b"\x55" * 32, b"\x03" + b"\x66" * 32, 0x53, 0xAE])
+    R_WPKH = raw(b"wpkh", [0, H(PUB_OK)])
+    WS_TRUE = raw(b"true", [0x51])
+
+    def sig_op(stack, *a, **k):
+        if len(stack) < 2:
+            return False
+        pub, sig = stack.pop(), stack.pop()
+        stack.append(b"\x01" if (sig, pub) in valid else b"")
+        return True
+
+    def opaque(name, args, kw):
+        if name == "op_hash160":
+            if not args[0]:
+                return False
+            args[0].append(H(args[0].pop()))
+            return True
+        if name in ("op_checksig", "op_checksig_schnorr"):
+            return sig_op(*args)
+        if name in ("hash160",):
+            return H(args[0])
+        if name == "sha256":
+            return S(args[0])
+        if name in ("op_checkmultisig", "op_checkmultisigverify"):
+            return False  # no cell carries a signature by a key of the 2-of-3 RedeemScript
+        if name in ("op_checksigadd_schnorr", "op_checksigverify"):
+            raise Undecided("opcode %s reached" % name)
+        return NotImplemented
+
+    def parse(cls, stream, *a, **k):
+        for b, cmds in scripts.items():
+            if isinstance(stream, bytes) and stream.endswith(b):
+                return Obj("script", "Script", {"commands": list(cmds)})
+        raise Raised("ValueError")
+    p2sh = lambda r: [0xA9, H(r), 0x87]
+    cases = [
+        ("native p2wpkh, honest", [], [0, H(PUB_OK)], [SIG_OK, PUB_OK], True),
+        ("p2sh-p2wpkh, honest", [R_WPKH], p2sh(R_WPKH), [SIG_OK, PUB_OK], True),
+        ("ScriptSig pushes `0 <hash160 of the spender's key>` in front of the RedeemScript of a p2sh 2-of-3", [b"", H(PUB_ATT), R_MULTI], p2sh(R_MULTI), [SIG_ATT, PUB_ATT], False),
+        ("ScriptSig pushes `0 <sha256 of an always-true script>` in front of the RedeemScript of a p2sh 2-of-3", [b"", S(WS_TRUE), R_MULTI], p2sh(R_MULTI), [WS_TRUE], False),
+        ("ScriptSig pushes `1 <the spender's x-only key>` in front of the RedeemScript of a p2sh 2-of-3", [b"\x01", X_ATT, R_MULTI], p2sh(R_MULTI), [SCHNORR_ATT], False),
+    ]
+    out = []
+    for label, script_sig, spk, wit, want in cases:
+        ctx.count("cells")
+        w = Obj("witness", "Witness", {"items": list(wit)})
+        tx = Obj("tx", "Tx", {"tx_ins": [Obj("tx", "TxIn", {"witness": w, "script_sig": None, "sequence": 0xFFFFFFFF})], "locktime": 0, "version": 1})
+        me = Obj("script", "Script", {"commands": list(script_sig) + list(spk)})
+        try:
+            r = Evaluator(ctx.repo, opaque=opaque, externals={"BytesIO": lambda b: b}, method_hooks={("Script", "parse"): parse}).call(spec, [tx, 0], self_obj=me)
+        except Raised:
+            r = False
+        except Undecided as u:
+            return [ctx.err(spec, "script evaluation not evaluable for the cell `%s`: %s" % (label, u), fn, mod)]
+        if bool(r) != want:
+            if want:
+                return [ctx.bad(spec, "an honest %s spend is not accepted" % label.split(",")[0], fn, mod, key="witness-program-position")]
+            out.append(ctx.bad(spec, "%s, with a witness that satisfies the pushed program: the spend is reported valid although no key of the RedeemScript signed -- the "
+                                     "witness-program rules fire on the shape of the stack wherever it arises, not only when the program is the whole scriptPubKey / RedeemScript" % label,
+                               fn, mod, key="witness-program-position"))
+            break
+    if not out:
+        out.append(ctx.ok(spec, "witness programs pushed by the ScriptSig are not executed (3 forged p2sh spends refused, 2 honest spends accepted)", fn, mod, key="witness-program-position"))
+    return out
+
+
 OBLIGATIONS = [
+    ("C06.20", "CELLS witness program", c06_20),
     ("C06.19", "SHARED", c06_19),
     ("C06.18", "SET-ORDER", c06_18),
     ("C06.17", "MEMO", c06_17),
